@@ -669,7 +669,7 @@ fn run_cases(ctx: &mut Ctx, cases: Vec<Case>, stats: &mut std::collections::BTre
 }
 
 fn case_payload(c: &Case, line: &str, observed: &str) -> Value {
-    json!({"kind": "c04", "case": c, "sources": [{"name": "con.asn", "text": format!("Con-Mod DEFINITIONS AUTOMATIC TAGS ::= BEGIN\n{PRELUDE}{}\nEND\n", line.replacen("T", "T", 1))}], "observed": observed})
+    json!({"kind": "c04", "case_json": serde_json::to_string(c).unwrap_or_default(), "sources": [{"name": "con.asn", "text": format!("Con-Mod DEFINITIONS AUTOMATIC TAGS ::= BEGIN\n{PRELUDE}{}\nEND\n", line.replacen("T", "T", 1))}], "observed": observed})
 }
 
 fn with_ext(e: ESet, ext: bool) -> Con {
@@ -719,7 +719,7 @@ pub fn run(tier: Tier, seed: u64, replay: Option<String>) -> i32 {
     ];
     if let Some(path) = replay {
         let v: Value = serde_json::from_str(&std::fs::read_to_string(&path).expect("replay")).expect("json");
-        let c: Case = serde_json::from_value(v["case"].clone()).expect("case");
+        let c: Case = case_from(&v).expect("case");
         let mut stats: std::collections::BTreeMap<String, (u64, Vec<String>)> = Default::default();
         run_cases(&mut ctx, vec![c], &mut stats);
         return ctx.finish();
@@ -727,7 +727,7 @@ pub fn run(tier: Tier, seed: u64, replay: Option<String>) -> i32 {
     let mut stats: std::collections::BTreeMap<String, (u64, Vec<String>)> = std::collections::BTreeMap::new();
     let mut replays = vec![];
     for (_p, v) in crate::ev::replay_files("C04") {
-        if let Ok(c) = serde_json::from_value::<Case>(v["case"].clone()) {
+        if let Some(c) = case_from(&v) {
             replays.push(c);
         }
     }
@@ -816,4 +816,13 @@ pub fn run(tier: Tier, seed: u64, replay: Option<String>) -> i32 {
     }
     ctx.extra.insert("failure_signatures".into(), json!(stats.len()));
     ctx.finish()
+}
+
+/// replay files carry the case either as a JSON object (hand-written) or as a JSON string
+/// (written by the check: serde_json::Value cannot hold i128 numbers)
+fn case_from(v: &Value) -> Option<Case> {
+    if let Some(s) = v["case_json"].as_str() {
+        return serde_json::from_str(s).ok();
+    }
+    serde_json::from_value(v["case"].clone()).ok()
 }
